@@ -45,11 +45,23 @@ type placeholder struct {
 	Num         int  `json:"num"`
 }
 
-func (p *Parser) deconstructPacket(rv reflect.Value, numBuffers *int) (buffers [][]byte, err error) {
-	return p.deconstructValue(rv, numBuffers)
+// What deconstruction changes in the caller's values (placeholders put in the place of binary data):
+// Encode puts everything back, in reverse order, once the JSON is made.
+type undoLog []func()
+
+func (u *undoLog) add(f func()) { *u = append(*u, f) }
+
+func (u undoLog) run() {
+	for i := len(u) - 1; i >= 0; i-- {
+		u[i]()
+	}
 }
 
-func (p *Parser) deconstructValue(rv reflect.Value, numBuffers *int) (buffers [][]byte, err error) {
+func (p *Parser) deconstructPacket(rv reflect.Value, numBuffers *int, undo *undoLog) (buffers [][]byte, err error) {
+	return p.deconstructValue(rv, numBuffers, undo)
+}
+
+func (p *Parser) deconstructValue(rv reflect.Value, numBuffers *int, undo *undoLog) (buffers [][]byte, err error) {
 	k := rv.Kind()
 	original := rv
 	if k == reflect.Interface || k == reflect.Ptr {
@@ -72,7 +84,7 @@ func (p *Parser) deconstructValue(rv reflect.Value, numBuffers *int) (buffers []
 			sl := rv.Len()
 			for i := 0; i < sl; i++ {
 				el := rv.Index(i)
-				b, err := p.deconstructValue(el, numBuffers)
+				b, err := p.deconstructValue(el, numBuffers, undo)
 				if err != nil {
 					return nil, err
 				}
@@ -90,7 +102,7 @@ func (p *Parser) deconstructValue(rv reflect.Value, numBuffers *int) (buffers []
 				return nil, errBinaryCannotBeAPtr
 			}
 
-			buf, err := p.deconstructBinaryValue(rv, original, numBuffers, nil)
+			buf, err := p.deconstructBinaryValue(rv, original, numBuffers, undo, nil)
 			if err != nil {
 				return nil, err
 			}
@@ -103,18 +115,20 @@ func (p *Parser) deconstructValue(rv reflect.Value, numBuffers *int) (buffers []
 			ne := reflect.New(rv.Type())
 			el := ne.Elem()
 			el.Set(rv)
+			prev := rv
+			undo.add(func() { original.Set(prev) })
 			original.Set(ne)
 			rv = el
 		}
 
-		b, err := p.deconstructStruct(rv, numBuffers)
+		b, err := p.deconstructStruct(rv, numBuffers, undo)
 		if err != nil {
 			return nil, err
 		}
 		buffers = append(buffers, b...)
 
 	case reflect.Map:
-		b, err := p.deconstructMap(rv, numBuffers)
+		b, err := p.deconstructMap(rv, numBuffers, undo)
 		if err != nil {
 			return nil, err
 		}
@@ -128,6 +142,7 @@ func (p *Parser) deconstructBinaryValue(
 	rv reflect.Value,
 	original reflect.Value,
 	numBuffers *int,
+	undo *undoLog,
 	customSetter func([]byte) error,
 ) (buf []byte, err error) {
 	if rv.CanInterface() {
@@ -152,6 +167,7 @@ func (p *Parser) deconstructBinaryValue(
 					return nil, err
 				}
 			} else if rv.CanSet() {
+				undo.add(func() { rv.SetBytes(buf) })
 				rv.SetBytes([]byte(pBuf))
 			} else {
 				if !original.CanSet() {
@@ -167,6 +183,9 @@ func (p *Parser) deconstructBinaryValue(
 
 				x := reflect.New(rv.Type())
 				x.Elem().Set(n)
+				prev := reflect.New(original.Type()).Elem()
+				prev.Set(original)
+				undo.add(func() { original.Set(prev) })
 				original.Set(x)
 			}
 		}
@@ -175,7 +194,7 @@ func (p *Parser) deconstructBinaryValue(
 	return
 }
 
-func (p *Parser) deconstructStruct(rv reflect.Value, numBuffers *int) (buffers [][]byte, err error) {
+func (p *Parser) deconstructStruct(rv reflect.Value, numBuffers *int, undo *undoLog) (buffers [][]byte, err error) {
 	nf := rv.NumField()
 
 	for i := 0; i < nf; i++ {
@@ -191,7 +210,7 @@ func (p *Parser) deconstructStruct(rv reflect.Value, numBuffers *int) (buffers [
 			continue
 		}
 
-		b, err := p.deconstructValue(fv, numBuffers)
+		b, err := p.deconstructValue(fv, numBuffers, undo)
 		if err != nil {
 			return nil, err
 		}
@@ -201,7 +220,7 @@ func (p *Parser) deconstructStruct(rv reflect.Value, numBuffers *int) (buffers [
 	return
 }
 
-func (p *Parser) deconstructMap(rv reflect.Value, numBuffers *int) (buffers [][]byte, err error) {
+func (p *Parser) deconstructMap(rv reflect.Value, numBuffers *int, undo *undoLog) (buffers [][]byte, err error) {
 	iter := rv.MapRange()
 	for iter.Next() {
 		mk := iter.Key()
@@ -225,11 +244,12 @@ func (p *Parser) deconstructMap(rv reflect.Value, numBuffers *int) (buffers [][]
 
 				x := reflect.New(mv.Type())
 				x.Elem().Set(n)
+				undo.add(func() { rv.SetMapIndex(mk, original) })
 				rv.SetMapIndex(mk, x)
 				return nil
 			}
 
-			buf, err := p.deconstructBinaryValue(mv, original, numBuffers, set)
+			buf, err := p.deconstructBinaryValue(mv, original, numBuffers, undo, set)
 			if err != nil {
 				return nil, err
 			}
@@ -237,7 +257,7 @@ func (p *Parser) deconstructMap(rv reflect.Value, numBuffers *int) (buffers [][]
 			continue
 		}
 
-		b, err := p.deconstructValue(mv, numBuffers)
+		b, err := p.deconstructValue(mv, numBuffers, undo)
 		if err != nil {
 			return nil, err
 		}
